@@ -39,18 +39,23 @@ def digest(obj):
 # ----------------------------------------------------------------------------- trees
 
 def snapshot(root):
-    """{relpath: bytes} for files, {relpath + '/': None} for directories."""
+    """{relpath: bytes} for files, {relpath + '/': None} for directories, {relpath + '@': target bytes} for symbolic
+    links (to files or directories; never followed)."""
     snap = {}
     for d, dirs, files in os.walk(root):
         dirs.sort()
         rel = os.path.relpath(d, root)
         if rel != '.':
             snap[rel + '/'] = None
+        for f in list(dirs):
+            p = os.path.join(d, f)
+            if os.path.islink(p):
+                snap[os.path.normpath(os.path.join(rel, f)) + '@'] = os.readlink(p).encode('utf-8', 'surrogateescape')
         for f in sorted(files):
             p = os.path.join(d, f)
             r = os.path.normpath(os.path.join(rel, f))
             if os.path.islink(p):
-                snap[r] = ('link:' + os.readlink(p)).encode()
+                snap[r + '@'] = os.readlink(p).encode('utf-8', 'surrogateescape')
             else:
                 with open(p, 'rb') as fh:
                     snap[r] = fh.read()
@@ -67,14 +72,58 @@ def restore(root, snap):
         if r.endswith('/'):
             os.makedirs(os.path.join(root, r), exist_ok=True)
     for r, data in snap.items():
-        if r.endswith('/'):
+        if r.endswith('/') or r.endswith('@'):
             continue
         p = os.path.join(root, r)
         os.makedirs(os.path.dirname(p), exist_ok=True)
         with open(p, 'wb') as fh:
             fh.write(data)
         os.utime(p, (FIXED_MTIME, FIXED_MTIME))      # the simulated disk has no wall clock: every file carries the same stamp
+    for r, data in snap.items():
+        if r.endswith('@'):
+            p = os.path.join(root, r[:-1])
+            os.makedirs(os.path.dirname(p), exist_ok=True)
+            os.symlink(data.decode('utf-8', 'surrogateescape'), p)
     return snapshot(root)
+
+
+def links_of(snap):
+    """{link path: resolved target path (world-relative, normalised)} for the symbolic links of a snapshot."""
+    out = {}
+    for r, data in snap.items():
+        if r.endswith('@') and data is not None:
+            link = r[:-1]
+            out[link] = os.path.normpath(os.path.join(os.path.dirname(link), data.decode('utf-8', 'surrogateescape')))
+    return out
+
+
+def resolve_path(links, rel, depth=0):
+    """`rel` with every symbolic-link prefix (and a symbolic-link leaf) replaced by its target."""
+    if depth > 8 or not links:
+        return rel
+    parts = rel.split('/')
+    for j in range(1, len(parts) + 1):
+        pre = '/'.join(parts[:j])
+        if pre in links:
+            return resolve_path(links, os.path.normpath('/'.join([links[pre]] + parts[j:])), depth + 1)
+    return rel
+
+
+def logical(snap):
+    """The tree as programs see it: the snapshot plus, for every symbolic link, the entries reachable through it
+    (link to a file: the file under the link's name; link to a directory: everything below it under the link's name)."""
+    links = links_of(snap)
+    if not links:
+        return snap
+    out = dict(snap)
+    for link, target in links.items():
+        target = resolve_path(links, target)
+        if target in snap:
+            out[link] = snap[target]
+        for r, c in snap.items():
+            if r.startswith(target + '/'):
+                out[link + r[len(target):]] = c
+    return out
 
 
 def write_world(root, files, dirs=()):
@@ -127,9 +176,16 @@ def audit(pre, post, events):
     """Completeness audit of the effect seam: every difference between the two snapshots must be
     explained by a logged effect on that path or on an ancestor directory.  Returns unexplained."""
     ps = effect_paths(events)
+    links = links_of(pre)
+    links.update(links_of(post))
+    if links:
+        # an effect names the path as the program spelled it; the tree changes where the link points
+        ps = ps | {resolve_path(links, p) for p in ps}
     bad = []
     for r, what in diff(pre, post):
         key = r.rstrip('/')
+        if key.endswith('@'):
+            key = key[:-1]
         ok = False
         for p in ps:
             if key == p or key.startswith(p + '/'):
